@@ -3,9 +3,11 @@
      validate_num_fields / validate_vector_units / validate_vector_data_for_inference /
      validate_vector_data), get_data, set_data, __getitem__, __setitem__, add_fields,
      remove_fields, copy, flatten, _FieldView.{__iadd__ ...,flatten,set_flattened}
+     the attribute setters fields / units / shape / data / name, _FieldView.__getitem__, save + load
    as written in /repo WITH the proposed repairs fixes/C11-*.diff applied
      (fresh metadata dict per vector; N-D traversal in get_data/__getitem__; one value per
-      addressed cell in set_data; index-count check in __setitem__; ndim check in the validators).
+      addressed cell in set_data; index-count check in __setitem__; ndim check in the validators;
+      count / layout / nesting checks in the fields / shape / data setters).
    State = a heap of cell arrays (id = position, allocation appends) + the live Vector objects.
    Object identity of numpy arrays is the heap id; the nested Python lists are `tree`s
    (C11_Heap).  Field names / units are integers (harness: z >= 0 <-> "field_z", z < 0 <-> "g|z|";
@@ -421,8 +423,7 @@ Definition op_getitem (s : state) (vi : nat) (idx : list ix) : state * res :=
   | None => (s, RSkip)
   | Some v =>
       let d := length (vshape v) in
-      if d <? length idx then (s, RSkip)           (* more indices than dimensions: not modelled *)
-      else if (length idx =? d) && forallb is_int idx then
+      if (length idx =? d) && forallb is_int idx then
         match int_path (vshape v) idx with
         | inl e => (s, RErr e)
         | inr p => match tget (vdata v) p with
@@ -430,7 +431,28 @@ Definition op_getitem (s : state) (vi : nat) (idx : list ix) : state * res :=
                    | None => (s, RErr EIndex)
                    end
         end
+      else if (d <? length idx) && forallb is_int (firstn d idx) then
+        (* more indices than fixed dimensions, integers on all fixed dimensions (return_np): the loop
+           `for i in idx: view = view[i]` goes on INTO the cell array with the remaining indices.
+           Modelled for one remaining integer (a row of the cell); other shapes are never generated. *)
+        match int_path (vshape v) (firstn d idx) with
+        | inl e => (s, RErr e)
+        | inr p =>
+            match tget (vdata v) p, skipn d idx with
+            | Some (Some id), [IInt r] =>
+                match nth_error (heap s) id with
+                | Some c => match pyidx (length (rows c)) r with
+                            | Some k => (s, RCol (nth k (rows c) []))
+                            | None => (s, RErr EIndex)
+                            end
+                | None => (s, RSkip)
+                end
+            | Some None, _ :: _ => (s, RErr EType)       (* None[r]: 'NoneType' object is not subscriptable *)
+            | _, _ => (s, RSkip)
+            end
+        end
       else
+        (* slices / lists: indices beyond the fixed dimensions are dropped by zip(full_idx, shape) *)
         let full := idx ++ repeat (ISlice None None None) (d - length idx) in
         match resolve_raw (vshape v) full with
         | None => (s, RErr EValue)
@@ -650,6 +672,157 @@ Definition op_copy (s : state) (vi : nat) : state * res :=
       end
   end.
 
+(* ---------------------------------------------------------------- public attribute setters *)
+(* As written in /repo WITH fixes/C11-attribute-setters.diff applied: `fields` must keep the number of
+   fields, `shape` must be the shape the nested lists are laid out for, `data` is validated one
+   nesting level per fixed dimension.  `units` and `name` are as in the unrepaired code. *)
+Inductive names_arg :=
+| NBad                       (* neither None nor a list / tuple *)
+| NNone                      (* None *)
+| NList (l : list Z).        (* a list or tuple of names *)
+
+(* v.fields = value: validate_fields (TypeError unless list/tuple; ValueError on duplicates), then the count *)
+Definition op_set_fields (s : state) (vi : nat) (a : names_arg) : state * res :=
+  match nth_error (vecs s) vi with
+  | None => (s, RSkip)
+  | Some v =>
+      match a with
+      | NList l =>
+          if nodupb l && (length l =? length (vfields v))
+          then (set_vec s (heap s) vi (mkVec (vshape v) l (vunits v) (vdata v) (vmeta v)), RNone)
+          else (s, RErr EValue)
+      | _ => (s, RErr EType)
+      end
+  end.
+
+(* v.units = value: validate_vector_units(value, num_fields); None means the default units *)
+Definition op_set_units (s : state) (vi : nat) (a : names_arg) : state * res :=
+  match nth_error (vecs s) vi with
+  | None => (s, RSkip)
+  | Some v =>
+      match a with
+      | NBad => (s, RErr EType)
+      | NNone => (set_vec s (heap s) vi
+                    (mkVec (vshape v) (vfields v) (repeat 0%Z (length (vfields v))) (vdata v) (vmeta v)), RNone)
+      | NList l =>
+          if length l =? length (vfields v)
+          then (set_vec s (heap s) vi (mkVec (vshape v) (vfields v) l (vdata v) (vmeta v)), RNone)
+          else (s, RErr EValue)
+      end
+  end.
+
+(* v.shape = value: validate_shape (None = not a tuple), then it must be the current shape; the state
+   never changes *)
+Definition op_set_shape (s : state) (vi : nat) (shape : option (list Z)) : state * res :=
+  match nth_error (vecs s) vi with
+  | None => (s, RSkip)
+  | Some v =>
+      match shape with
+      | None => (s, RErr EType)
+      | Some sh =>
+          if existsb (fun d => (d <=? 0)%Z) sh then (s, RErr EValue)
+          else if list_eq_dec Nat.eq_dec (map Z.to_nat sh) (vshape v) then (s, RNone)
+          else (s, RErr EValue)
+      end
+  end.
+
+(* first failure of a list of checks, in order *)
+Fixpoint mapE {A B : Type} (f : A -> err + B) (l : list A) : err + list B :=
+  match l with
+  | [] => inr []
+  | x :: r => match f x with
+              | inl e => inl e
+              | inr y => match mapE f r with inl e => inl e | inr ys => inr (y :: ys) end
+              end
+  end.
+
+(* validate_vector_data(data, shape, num_fields) on an argument given as a skeleton `t` (the nesting of
+   Python lists; a leaf `Some i` stands for the i-th item, `None` for a Python None) and the evaluated
+   items `rv`: one list level per fixed dimension (TypeError if not a list, ValueError on a wrong
+   length), at the innermost level every element must be a 2-D array with one column per field.
+   A list where an array is expected is converted by np.array and is then not 2-D (the harness only
+   passes lists of arrays there). *)
+Fixpoint vcheck (rv : list rval) (h : list cell) (nf : nat) (sh : list nat) (t : tree) {struct sh}
+  : err + tree :=
+  match sh with
+  | [] =>
+      match t with
+      | Leaf (Some i) =>
+          match nth_error rv i with
+          | Some x => match check_val h nf x with inl e => inl e | inr id => inr (Leaf (Some id)) end
+          | None => inl EType
+          end
+      | Leaf None => inl EType
+      | Node _ => inl EValue
+      end
+  | n :: sh' =>
+      match t with
+      | Leaf _ => inl EType
+      | Node l =>
+          if length l =? n
+          then match mapE (vcheck rv h nf sh') l with inl e => inl e | inr l' => inr (Node l') end
+          else inl EValue
+      end
+  end.
+
+(* v.data = value *)
+Definition op_set_data_attr (s : state) (vi : nat) (skel : tree) (items : list aval) : state * res :=
+  match nth_error (vecs s) vi with
+  | None => (s, RSkip)
+  | Some v =>
+      match vshape v with
+      | [] => (s, RSkip)                     (* shape (): shape[0] raises; never generated *)
+      | _ :: _ =>
+          let '(h, rv) := eval_avals (vecs s) (heap s) items in
+          match vcheck rv h (length (vfields v)) (vshape v) skel with
+          | inl e => (s, RErr e)
+          | inr t => (set_vec s h vi (with_data v t), RNone)
+          end
+      end
+  end.
+
+(* v.name = value and v.metadata[key] = value: neither the name nor the contents of the metadata dict
+   are part of the model state (only the identity of the dict is) *)
+Definition op_touch (s : state) (vi : nat) : state * res :=
+  match nth_error (vecs s) vi with
+  | None => (s, RSkip)
+  | Some _ => (s, RNone)
+  end.
+
+(* ---------------------------------------------------------------- _FieldView.__getitem__ *)
+(* v[name][idx]:  sub = v[idx]; a Vector -> the field view of the new Vector (which is kept alive by the
+   view); an array -> its column; None (unset cell) -> None; a row (too many indices) -> row[:, k] raises *)
+Definition op_field_get (s : state) (vi : nat) (name : Z) (idx : list ix) : state * res :=
+  match nth_error (vecs s) vi with
+  | None => (s, RSkip)
+  | Some v =>
+      match index_of name (vfields v) with
+      | None => (s, RErr EKey)
+      | Some k =>
+          match op_getitem s vi idx with
+          | (s', RCell (Some id)) =>
+              match nth_error (heap s') id with
+              | Some c => (s', RCol (col k c))
+              | None => (s', RSkip)
+              end
+          | (s', RCell None) => (s', RNone)
+          | (s', RCol _) => (s', RErr EIndex)
+          | other => other
+          end
+      end
+  end.
+
+(* ---------------------------------------------------------------- save + load (AutoSerialize) *)
+(* load(v.save(path)): a new Vector with the same shape / fields / units, one NEW array per populated
+   cell (aliasing between cells is not preserved), its own metadata dict *)
+Definition op_reload (s : state) (vi : nat) : state * res :=
+  match nth_error (vecs s) vi with
+  | None => (s, RSkip)
+  | Some v =>
+      let '(h, t) := tmapfold (realloc (fun c => c)) (heap s) (vdata v) in
+      (push_vec s h (vshape v) (vfields v) (vunits v) t, RNew)
+  end.
+
 (* ---------------------------------------------------------------- operations, histories *)
 Inductive op :=
 | OFromShape (shape : list Z) (nf : option Z) (fields units : option (list Z))
@@ -664,7 +837,14 @@ Inductive op :=
 | OFlatten (vi : nat)
 | OAddFields (vi : nat) (names : list Z)
 | ORemoveFields (vi : nat) (names : list Z)
-| OCopy (vi : nat).
+| OCopy (vi : nat)
+| OSetFields (vi : nat) (a : names_arg)
+| OSetUnits (vi : nat) (a : names_arg)
+| OSetShape (vi : nat) (shape : option (list Z))
+| OSetDataAttr (vi : nat) (skel : tree) (items : list aval)
+| OTouch (vi : nat)
+| OFieldGet (vi : nat) (name : Z) (idx : list ix)
+| OReload (vi : nat).
 
 Definition step (s : state) (o : op) : state * res :=
   match o with
@@ -681,6 +861,13 @@ Definition step (s : state) (o : op) : state * res :=
   | OAddFields vi names => op_add_fields s vi names
   | ORemoveFields vi names => op_remove_fields s vi names
   | OCopy vi => op_copy s vi
+  | OSetFields vi a => op_set_fields s vi a
+  | OSetUnits vi a => op_set_units s vi a
+  | OSetShape vi sh => op_set_shape s vi sh
+  | OSetDataAttr vi skel items => op_set_data_attr s vi skel items
+  | OTouch vi => op_touch s vi
+  | OFieldGet vi name idx => op_field_get s vi name idx
+  | OReload vi => op_reload s vi
   end.
 
 Definition run (ops : list op) (s : state) : state := fold_left (fun s o => fst (step s o)) ops s.
@@ -780,4 +967,14 @@ Fixpoint trace_fp (s : state) (ops : list op) : list (list Z) * list Z :=
   | o :: r => let '(s', x) := step s o in
               let '(t, fin) := trace_fp s' r in
               ((fp (obs s') :: ser_res s' x) :: t, fin)
+  end.
+
+(* like trace_fp, but at every step whose number k satisfies k mod m = r the state observation is
+   given in clear instead of as a fingerprint: per step (result serialisation, [fp] | obs) *)
+Fixpoint trace_smp (m r k : nat) (s : state) (ops : list op) : list (list Z * list Z) * list Z :=
+  match ops with
+  | [] => ([], obs s)
+  | o :: rest => let '(s', x) := step s o in
+                 let '(t, fin) := trace_smp m r (S k) s' rest in
+                 ((ser_res s' x, if Nat.eqb (Nat.modulo k m) r then obs s' else [fp (obs s')]) :: t, fin)
   end.
